@@ -86,7 +86,7 @@ func (fr *Frame) execBlock(b *ssa.BasicBlock, st *State, c string, in map[*ssa.B
 		case *ssa.Range:
 			fr.vals[x] = fr.rangeInit(x, st)
 		case *ssa.Next:
-			fr.vals[x] = fr.next(x, st)
+			fr.vals[x] = fr.next(x, st, c)
 		case *ssa.Call:
 			var v Val
 			v, c = fr.call(&x.Call, x, st, c)
@@ -271,6 +271,11 @@ func (fr *Frame) guardCheck(l *Loc, write bool, st *State, c string, pos token.P
 		if fx.freshRefs[l.Ref] {
 			continue // object under construction: not yet shared
 		}
+		if g.Lock == "#atomic" {
+			// a field declared atomic may only be accessed through sync/atomic
+			fx.obligeNamed(fr.key+"#atomic-field", "atomic", []string{"lock"}, c, "false", fr.pos(pos), "plain (non-atomic) access to "+g.Root+g.Field+", which is accessed with sync/atomic elsewhere")
+			continue
+		}
 		id := "(lockid " + l.Ref + " " + fmt.Sprint(hashStr(g.Root+g.Lock)) + ")"
 		held := sel(st.get(fx, "G|lock"), id)
 		goal := not(eq(held, "0"))
@@ -280,7 +285,34 @@ func (fr *Frame) guardCheck(l *Loc, write bool, st *State, c string, pos token.P
 			what = "write of " + g.Root + g.Field + " without holding " + g.Lock + " for writing"
 		}
 		fx.obligeNamed(fr.key+"#guarded", "guarded", []string{"lock"}, c, goal, fr.pos(pos), what)
+		fr.sectionCheck(fx.name(id, "Int", "lk"), st, c, pos, g.Root+g.Field)
+		fr.lastGuard = &guardTag{id: id, what: g.Root + g.Field}
 	}
+}
+
+// guardTag: the lock protecting the contents of a map that was just loaded from a guarded field
+type guardTag struct {
+	id   string
+	what string
+}
+
+// guardMapOp: an operation on the contents of a map held in a guarded field needs the lock as well
+// (for writing when the contents change)
+func (fr *Frame) guardMapOp(m ssa.Value, write bool, st *State, c string, pos token.Pos) {
+	g := fr.mapGuards[m]
+	if g == nil {
+		return
+	}
+	fx := fr.fx
+	held := sel(st.get(fx, "G|lock"), g.id)
+	goal := not(eq(held, "0"))
+	what := "read of the contents of " + g.what + " without holding its lock"
+	if write {
+		goal = eq(held, "(- 1)")
+		what = "write to the contents of " + g.what + " without holding its lock for writing"
+	}
+	fx.obligeNamed(fr.key+"#guarded", "guarded", []string{"lock"}, c, goal, fr.pos(pos), what)
+	fr.sectionCheck(fx.name(g.id, "Int", "lk"), st, c, pos, g.what)
 }
 
 func (fr *Frame) load(p Val, st *State) Val {
@@ -384,7 +416,16 @@ func (fr *Frame) unop(x *ssa.UnOp, st *State, c string) Val {
 		if p.Loc == nil {
 			fr.safety("nil", c, not(eq(p.L[0], "0")), x, "nil dereference: *"+x.X.Name())
 		}
+		fr.lastGuard = nil
 		fr.guardCheck(p.Loc, false, st, c, x.Pos())
+		if fr.lastGuard != nil {
+			if _, isMap := x.Type().Underlying().(*types.Map); isMap {
+				if fr.mapGuards == nil {
+					fr.mapGuards = map[ssa.Value]*guardTag{}
+				}
+				fr.mapGuards[x] = fr.lastGuard
+			}
+		}
 		v := fr.load(p, st)
 		if g, ok := x.X.(*ssa.Global); ok {
 			fr.sentinelFacts(g, v)
@@ -676,7 +717,11 @@ func (fr *Frame) makeInterface(x *ssa.MakeInterface, st *State) Val {
 		}
 		return Val{T: x.Type(), L: []string{tid, v.L[0]}}
 	}
-	// box the value
+	// box the value; basic single-leaf values get a canonical box (a bijection between contents and
+	// payloads, no heap cell), so that two interfaces holding equal basic values are equal, as in Go
+	if fn := canonBox(x.X.Type()); fn != "" {
+		return Val{T: x.Type(), L: []string{tid, fx.name("("+fn+" "+v.L[0]+")", "Int", "box")}}
+	}
 	ref := fr.bumpAlloc(st)
 	bk := "box:" + typeKey(x.X.Type())
 	for i, l := range leaves(x.X.Type()) {
@@ -716,6 +761,10 @@ func (fr *Frame) typeAssert(x *ssa.TypeAssert, st *State, c string) Val {
 			ls := leaves(x.AssertedType)
 			res = Val{T: x.AssertedType, L: make([]string, len(ls))}
 			for i, l := range ls {
+				if fn := canonBox(x.AssertedType); fn != "" {
+					res.L[i] = ite(ok, "(un"+fn+" "+v.L[1]+")", l.Zero)
+					continue
+				}
 				k := "H|" + bk + "|" + l.Path
 				fx.regComp(k, "(Array Int "+l.Sort+")")
 				res.L[i] = ite(ok, sel(st.get(fx, k), v.L[1]), l.Zero)
@@ -858,16 +907,17 @@ func (fr *Frame) mapUpdate(x *ssa.MapUpdate, st *State, c string) {
 	k := fr.get(x.Key)
 	v := fr.escape(fr.get(x.Value), st)
 	fr.safety("nil", c, not(eq(m.L[0], "0")), x, "assignment to entry in nil map")
+	fr.guardMapOp(x.Map, true, st, c, x.Pos())
 	has, vals, _ := fx.mapComps(x.Map.Type())
 	hcur := st.get(fx, has)
-	had := sel(sel(hcur, m.L[0]), k.L[0])
+	had := sel(sel(hcur, m.L[0]), mapKey(k))
 	lk := "M|" + typeKey(x.Map.Type()) + "|#len"
 	lcur := st.get(fx, lk)
 	st.set(lk, fx.nameComp(lk, sto(lcur, m.L[0], ite(had, sel(lcur, m.L[0]), "(+ "+sel(lcur, m.L[0])+" 1)"))))
-	st.set(has, fx.nameComp(has, sto(hcur, m.L[0], sto(sel(hcur, m.L[0]), k.L[0], "true"))))
+	st.set(has, fx.nameComp(has, sto(hcur, m.L[0], sto(sel(hcur, m.L[0]), mapKey(k), "true"))))
 	for i, vk := range vals {
 		cur := st.get(fx, vk)
-		st.set(vk, fx.nameComp(vk, sto(cur, m.L[0], sto(sel(cur, m.L[0]), k.L[0], v.L[i]))))
+		st.set(vk, fx.nameComp(vk, sto(cur, m.L[0], sto(sel(cur, m.L[0]), mapKey(k), v.L[i]))))
 	}
 }
 
@@ -880,6 +930,7 @@ func (fr *Frame) lookup(x *ssa.Lookup, st *State, c string) Val {
 		return Val{T: x.Type(), L: []string{fx.name("(bat "+m.L[0]+" "+k.L[0]+")", "Int", "b")}}
 	}
 	mt := x.X.Type().Underlying().(*types.Map)
+	fr.guardMapOp(x.X, false, st, c, x.Pos())
 	// reading a nil map is fine: has == false for ref 0 (assumed by construction of the heap)
 	v := fx.mapLoad(st, m, k)
 	fx.sliceFacts(v)
@@ -922,7 +973,7 @@ func (fr *Frame) rangeInit(x *ssa.Range, st *State) Val {
 	return Val{T: x.Type(), Tup: []Val{src}, S: []string{key}}
 }
 
-func (fr *Frame) next(x *ssa.Next, st *State) Val {
+func (fr *Frame) next(x *ssa.Next, st *State, c string) Val {
 	fx := fr.fx
 	it := fr.get(x.Iter)
 	src := it.Tup[0]
@@ -938,16 +989,19 @@ func (fr *Frame) next(x *ssa.Next, st *State) Val {
 		vv = Val{T: tup.At(2).Type(), L: []string{r}}
 	} else {
 		mt := src.T.Underlying().(*types.Map)
+		if rg, ok := x.Iter.(*ssa.Range); ok {
+			fr.guardMapOp(rg.X, false, st, c, x.Pos())
+		}
 		key := it.S[0]
 		vis := st.get(fx, key)
 		kv = fx.symbolic(st, "next_k", mt.Key())
 		// ok: a key of the map not yet visited; !ok: every key has been visited
-		fx.assert(implies(ok, and(fx.mapHas(st, src, kv), not(sel(vis, kv.L[0])), not(eq(src.L[0], "0")))))
+		fx.assert(implies(ok, and(fx.mapHas(st, src, kv), not(sel(vis, mapKey(kv))), not(eq(src.L[0], "0")))))
 		q := fx.freshName("k")
 		ks := mapKeySort(mt)
 		has, _, _ := fx.mapComps(src.T)
 		fx.assert(implies(not(ok), fmt.Sprintf("(forall ((%s %s)) (! (=> (select (select %s %s) %s) (select %s %s)) :pattern ((select (select %s %s) %s))))", q, ks, st.get(fx, has), src.L[0], q, vis, q, st.get(fx, has), src.L[0], q)))
-		st.set(key, fx.nameComp(key, ite(ok, sto(vis, kv.L[0], "true"), vis)))
+		st.set(key, fx.nameComp(key, ite(ok, sto(vis, mapKey(kv), "true"), vis)))
 		vv = fx.mapLoad(st, src, kv)
 		fx.sliceFacts(vv)
 		if !validType(tup.At(1).Type()) {
@@ -974,4 +1028,22 @@ func neverIndexed(a *ssa.Alloc) bool {
 		}
 	}
 	return true
+}
+
+// canonBox: the boxing function of a basic single-leaf type ("" for every other type)
+func canonBox(t types.Type) string {
+	if _, basic := t.Underlying().(*types.Basic); !basic {
+		return ""
+	}
+	ls := leaves(t)
+	if len(ls) != 1 {
+		return ""
+	}
+	switch ls[0].Sort {
+	case "BSeq":
+		return "bxS"
+	case "Int":
+		return "bxI"
+	}
+	return ""
 }
